@@ -328,6 +328,11 @@ func signedByNode() {
 	for _, ms := range []int{1, 400, 499, 500, 501, 600, 999} {
 		msgs = append(msgs, proch.Msg{Seq: 5, TSOff: 0, TSMs: ms, Payload: []byte{1, 2, 3}, Emitter: e, Chain: 2, Target: 255, CL: 1, Nonce: 9})
 	}
+	// timestamps with a meaning of their own: the zero time.Time (its Unix() is negative: the body carries the low
+	// 32 bits), Unix 0, the last 32-bit second - the digest is a function of the message, never of the node's clock
+	for _, k := range []string{"zero", "epoch", "2106"} {
+		msgs = append(msgs, proch.Msg{Seq: 6, TSKind: k, Payload: []byte{1, 2, 3}, Emitter: e, Chain: 2, Target: 255, CL: 1, Nonce: 9})
+	}
 	w := proch.NewWorld()
 	c := proch.Config{Name: "digest-of-own-observation", Sets: [][]int{{0}, {0, 1, 2}}, OwnKey: 0, Msgs: msgs}
 	x := &proch.Explorer{R: r, W: w, C: &c, Oracles: map[string]bool{}}
